@@ -1066,9 +1066,251 @@ where
                         }
                     }
                 }
+                // the checksum-verifying slice decoders sit on the same cursor: same totality / allocation claims
+                let placed: &[u8] = gb.place(&input, at_tail);
+                let c32 = crc::Crc::<u32>::new(&crc::CRC_32_ISCSI);
+                let c8 = crc::Crc::<u8>::new(&crc::CRC_8_SMBUS);
+                let c128 = crc::Crc::<u128>::new(&crc::CRC_82_DARC);
+                let (res, al) = count_allocs(|| {
+                    catch(|| {
+                        let a = postcard::take_from_bytes_crc32::<T>(placed, c32.digest()).is_ok();
+                        let b = postcard::de_flavors::crc::from_bytes_u8::<T>(placed, c8.digest()).is_ok();
+                        let c = postcard::de_flavors::crc::take_from_bytes_u128::<T>(placed, c128.digest()).is_ok();
+                        (a, b, c)
+                    })
+                });
+                t.st.count("crc_checked_decodes");
+                let rp = vec![kv("kind", "concrete"), kv("type", name), kv("input", hex(&input))];
+                match res {
+                    Err(p) => {
+                        t.st.violation("C04:panic", format!("{}: checksum-verifying decoding panicked: {} (input {})", name, p, hexs(&input)), rp);
+                        break;
+                    }
+                    Ok(_) => {
+                        let bound = 3 * (16 * (input.len() + 1) * elem_size.max(1) + 256);
+                        if judge_alloc && al.bytes > bound {
+                            t.st.violation(
+                                "C04:allocation-exceeds-bound",
+                                format!("{}: {} bytes requested by three checksum-verifying decodes of a {}-byte input (bound {}, largest request {}) (input {})", name, al.bytes, input.len(), bound, al.max_request, hexs(&input)),
+                                rp,
+                            );
+                            break;
+                        }
+                    }
+                }
             }
             t.crumb.clear();
         }
+    }
+}
+
+// ------------------------------------------------------------------ flavour objects used more than once
+
+/// Endless deterministic byte source with short reads.
+struct PatternReader {
+    pos: usize,
+    step: usize,
+}
+impl PatternReader {
+    fn byte(i: usize) -> u8 {
+        (i as u32).wrapping_mul(2654435761).rotate_left(7) as u8
+    }
+}
+impl std::io::Read for PatternReader {
+    fn read(&mut self, buf: &mut [u8]) -> std::io::Result<usize> {
+        let n = buf.len().min(self.step.max(1));
+        for (k, b) in buf[..n].iter_mut().enumerate() {
+            *b = Self::byte(self.pos + k);
+        }
+        self.pos += n;
+        Ok(n)
+    }
+}
+
+/// The decode-side flavours are public API (`Deserializer::from_flavor`, `de_flavors::*`) and a caller may go on
+/// using one after a request was refused (the next message on the same reader, the next field).  Operation
+/// sequences against a model: scratch slots are disjoint, in order and inside the scratch buffer whatever was
+/// refused before; a refused request changes nothing; the slice cursor never leaves the input.
+fn c04_flavor_histories(t: &mut Tctx) {
+    use postcard::de_flavors::io::io::IOReader;
+    use postcard::de_flavors::{Flavor, Slice};
+    let mut gb = GuardBuf::new(2);
+    let n = t.cfg.scale(12, 4000, 80_000);
+    for it in 0..n {
+        if t.cfg.expired() {
+            break;
+        }
+        let cap = t.rng.range(0, 24);
+        let at_tail = it % 2 == 0;
+        let steps = t.rng.range(1, 10);
+        // request sizes: fitting, just too large, and so large that pointer arithmetic wraps
+        let mut plan: Vec<(bool, usize)> = Vec::new();
+        for _ in 0..steps {
+            let pop = t.rng.chance(1, 4);
+            let ct = match t.rng.below(9) {
+                0 => 0,
+                1 => 1,
+                2 | 3 => t.rng.range(0, cap + 2),
+                4 => cap + 1 + t.rng.range(0, 40),
+                5 => usize::MAX - t.rng.below(64) as usize,
+                6 => usize::MAX - t.rng.below(1 << 16) as usize,
+                7 => (isize::MAX as usize) + 1 - t.rng.below(3) as usize,
+                _ => 1usize << t.rng.range(5, usize::BITS as usize - 1),
+            };
+            plan.push((pop, ct));
+        }
+        let plan_text = plan.iter().map(|(p, c)| if *p { "pop".to_string() } else { format!("take({})", c) }).collect::<Vec<_>>().join(" ");
+        t.st.eval();
+        t.st.nontrivial(fp_mix(fp(plan_text.as_bytes()), cap as u64 ^ ((at_tail as u64) << 32)));
+        // ---- reader flavour over a guarded scratch buffer
+        t.crumb.set(&format!("kind: flavor-history\nflavor: IOReader\nscratch: {}\nplan: {}", cap, plan_text));
+        let scratch: &mut [u8] = if at_tail { gb.tail(cap) } else { gb.head(cap) };
+        let base = scratch.as_ptr() as usize;
+        let r = catch(|| -> Result<(), String> {
+            let mut fl = IOReader::new(PatternReader { pos: 0, step: 1 + (it as usize % 5) }, scratch);
+            let mut used = 0usize;
+            let mut rpos = 0usize;
+            for (k, (pop, ct)) in plan.iter().enumerate() {
+                if *pop {
+                    match fl.pop() {
+                        Ok(b) if b == PatternReader::byte(rpos) => rpos += 1,
+                        other => return Err(format!("step {}: pop gave {:?}, expected byte {} of the stream", k, other.map_err(|e| err_label(&e)), rpos)),
+                    }
+                } else {
+                    let fits = *ct <= cap - used;
+                    match (fl.try_take_n(*ct), fits) {
+                        (Ok(s), true) => {
+                            let p = s.as_ptr() as usize;
+                            if p != base + used || s.len() != *ct {
+                                return Err(format!("step {}: take({}) returned a slot at offset {} len {} of the scratch buffer, expected offset {} len {}", k, ct, p.wrapping_sub(base) as isize, s.len(), used, ct));
+                            }
+                            if s.iter().enumerate().any(|(i, b)| *b != PatternReader::byte(rpos + i)) {
+                                return Err(format!("step {}: take({}) did not deliver the next bytes of the stream", k, ct));
+                            }
+                            used += ct;
+                            rpos += ct;
+                        }
+                        (Err(postcard::Error::DeserializeUnexpectedEnd), false) => {}
+                        (Ok(s), false) => return Err(format!("step {}: take({}) succeeded (len {}) with only {} scratch bytes left", k, ct, s.len(), cap - used)),
+                        (Err(e), _) => return Err(format!("step {}: take({}) with {} scratch bytes left gave {}", k, ct, cap - used, err_label(&e))),
+                    }
+                }
+                if fl.size_hint() != Some(cap - used) {
+                    return Err(format!("step {}: size_hint {:?} but {} scratch bytes are left", k, fl.size_hint(), cap - used));
+                }
+            }
+            match fl.finalize() {
+                Ok((rd, rest)) => {
+                    if rest.as_ptr() as usize != base + used || rest.len() != cap - used {
+                        return Err(format!("finalize returned scratch remainder at offset {} len {}, expected offset {} len {}", (rest.as_ptr() as usize).wrapping_sub(base) as isize, rest.len(), used, cap - used));
+                    }
+                    if rd.pos != rpos {
+                        return Err(format!("the reader delivered {} bytes but {} were decoded", rd.pos, rpos));
+                    }
+                    Ok(())
+                }
+                Err(e) => Err(format!("finalize failed: {}", err_label(&e))),
+            }
+        });
+        t.st.count("reader_flavor_histories");
+        match r {
+            Ok(Ok(())) => {}
+            Ok(Err(m)) => t.st.violation("C04:reader-flavour-state-after-refusal", format!("IOReader over a {}-byte scratch, plan [{}]: {}", cap, plan_text, m), vec![kv("kind", "flavor-history"), kv("flavor", "IOReader"), kv("scratch", cap.to_string()), kv("plan", plan_text.clone())]),
+            Err(p) => t.st.violation("C04:panic", format!("IOReader over a {}-byte scratch, plan [{}]: panicked: {}", cap, plan_text, p), vec![kv("kind", "flavor-history"), kv("flavor", "IOReader"), kv("scratch", cap.to_string()), kv("plan", plan_text.clone())]),
+        }
+        // ---- slice flavour over a guarded input
+        t.crumb.set(&format!("kind: flavor-history\nflavor: Slice\ninput: {}\nplan: {}", cap, plan_text));
+        let data: Vec<u8> = (0..cap).map(PatternReader::byte).collect();
+        let input: &[u8] = gb.place(&data, at_tail);
+        let ibase = input.as_ptr() as usize;
+        let r = catch(|| -> Result<(), String> {
+            let mut fl = Slice::new(input);
+            let mut used = 0usize;
+            for (k, (pop, ct)) in plan.iter().enumerate() {
+                if *pop {
+                    match (fl.pop(), used < cap) {
+                        (Ok(b), true) if b == PatternReader::byte(used) => used += 1,
+                        (Err(postcard::Error::DeserializeUnexpectedEnd), false) => {}
+                        (other, _) => return Err(format!("step {}: pop at offset {} of {} gave {:?}", k, used, cap, other.map_err(|e| err_label(&e)))),
+                    }
+                } else {
+                    let fits = *ct <= cap - used;
+                    match (fl.try_take_n(*ct), fits) {
+                        (Ok(s), true) => {
+                            if s.as_ptr() as usize != ibase + used || s.len() != *ct {
+                                return Err(format!("step {}: take({}) returned offset {} len {}, expected offset {}", k, ct, (s.as_ptr() as usize).wrapping_sub(ibase) as isize, s.len(), used));
+                            }
+                            used += ct;
+                        }
+                        (Err(postcard::Error::DeserializeUnexpectedEnd), false) => {}
+                        (Ok(s), false) => return Err(format!("step {}: take({}) succeeded (len {}) with only {} input bytes left", k, ct, s.len(), cap - used)),
+                        (Err(e), _) => return Err(format!("step {}: take({}) with {} bytes left gave {}", k, ct, cap - used, err_label(&e))),
+                    }
+                }
+                if fl.size_hint() != Some(cap - used) {
+                    return Err(format!("step {}: size_hint {:?} but {} input bytes are left", k, fl.size_hint(), cap - used));
+                }
+            }
+            match fl.finalize() {
+                Ok(rest) if rest.as_ptr() as usize == ibase + used && rest.len() == cap - used => Ok(()),
+                Ok(rest) => Err(format!("finalize returned offset {} len {}, expected offset {} len {}", (rest.as_ptr() as usize).wrapping_sub(ibase) as isize, rest.len(), used, cap - used)),
+                Err(e) => Err(format!("finalize failed: {}", err_label(&e))),
+            }
+        });
+        t.st.count("slice_flavor_histories");
+        match r {
+            Ok(Ok(())) => {}
+            Ok(Err(m)) => t.st.violation("C04:slice-flavour-state-after-refusal", format!("Slice over {} bytes, plan [{}]: {}", cap, plan_text, m), vec![kv("kind", "flavor-history"), kv("flavor", "Slice"), kv("scratch", cap.to_string()), kv("plan", plan_text.clone())]),
+            Err(p) => t.st.violation("C04:panic", format!("Slice over {} bytes, plan [{}]: panicked: {}", cap, plan_text, p), vec![kv("kind", "flavor-history"), kv("flavor", "Slice"), kv("scratch", cap.to_string()), kv("plan", plan_text.clone())]),
+        }
+        t.crumb.clear();
+    }
+    // ---- one Deserializer, several values: a refused string must not disturb the next one
+    let n = t.cfg.scale(6, 1500, 30_000);
+    for it in 0..n {
+        if t.cfg.expired() {
+            break;
+        }
+        let cap = t.rng.range(1, 16);
+        let claimed = *t.rng.pick(&[usize::MAX, usize::MAX - 7, cap + 1, cap + 300, (isize::MAX as usize) + 1, 1 << (usize::BITS - 8)]);
+        let good_len = t.rng.range(0, cap);
+        t.st.eval();
+        t.crumb.set(&format!("kind: deserializer-reuse\nscratch: {}\nclaimed: {}\ngood_len: {}", cap, claimed, good_len));
+        let mut stream = varint_bytes(claimed as u128);
+        let good: Vec<u8> = (0..good_len).map(|i| b'a' + (i % 26) as u8).collect();
+        stream.extend_from_slice(&varint_bytes(good_len as u128));
+        stream.extend_from_slice(&good);
+        stream.push(0x2A);
+        let scratch: &mut [u8] = if it % 2 == 0 { gb.tail(cap) } else { gb.head(cap) };
+        let base = scratch.as_ptr() as usize;
+        let r = catch(|| -> Result<(), String> {
+            let mut de = postcard::Deserializer::from_flavor(IOReader::new(&stream[..], scratch));
+            let first = <&[u8]>::deserialize(&mut de);
+            if !matches!(first, Err(postcard::Error::DeserializeUnexpectedEnd)) {
+                return Err(format!("a byte string claiming {} bytes with {} bytes of scratch gave {:?}", claimed, cap, first.map(|s| s.len()).map_err(|e| err_label(&e))));
+            }
+            let second = <&[u8]>::deserialize(&mut de).map_err(|e| format!("the next byte string ({} bytes, fits) was refused: {}", good_len, err_label(&e)))?;
+            if second != &good[..] || second.as_ptr() as usize != base {
+                return Err(format!("the next byte string came back as {} at scratch offset {}", hexs(second), (second.as_ptr() as usize).wrapping_sub(base) as isize));
+            }
+            let third = u8::deserialize(&mut de).map_err(|e| format!("trailing byte: {}", err_label(&e)))?;
+            if third != 0x2A {
+                return Err(format!("trailing byte decoded as {}", third));
+            }
+            let (_, rest) = de.finalize().map_err(|e| format!("finalize: {}", err_label(&e)))?;
+            if rest.as_ptr() as usize != base + good_len || rest.len() != cap - good_len {
+                return Err(format!("scratch remainder at offset {} len {}, expected offset {} len {}", (rest.as_ptr() as usize).wrapping_sub(base) as isize, rest.len(), good_len, cap - good_len));
+            }
+            Ok(())
+        });
+        t.st.count("deserializer_reuse_cases");
+        let rp = vec![kv("kind", "deserializer-reuse"), kv("scratch", cap.to_string()), kv("claimed", claimed.to_string()), kv("good_len", good_len.to_string())];
+        match r {
+            Ok(Ok(())) => {}
+            Ok(Err(m)) => t.st.violation("C04:reader-flavour-state-after-refusal", format!("one Deserializer over a reader, {} bytes of scratch: {}", cap, m), rp),
+            Err(p) => t.st.violation("C04:panic", format!("one Deserializer over a reader, {} bytes of scratch: panicked: {}", cap, p), rp),
+        }
+        t.crumb.clear();
     }
 }
 
@@ -1214,6 +1456,7 @@ fn lean_decode_one(t: &mut Tctx, shape: &Shape, text: &str, input: &[u8], n: &mu
 }
 
 fn lean_c04(t: &mut Tctx) {
+    c04_flavor_histories(t);
     let mut n = [0u64; 6];
     let mut shapes = 0u64;
     while !t.cfg.expired() && shapes < t.cfg.knob_u64("lean_shapes", 400) {
@@ -1352,6 +1595,10 @@ pub fn run_c04(cfg: &Cfg) -> Report {
     rep.stats.merge(s);
     let s = parallel(cfg, 3, |t| c04_unservable(t));
     rep.stats.merge(s);
+    let s = parallel(cfg, 4, |t| c04_flavor_histories(t));
+    rep.stats.merge(s);
+    rep.floor("reader_flavor_histories", 100);
+    rep.floor("deserializer_reuse_cases", 50);
     finish_c04(&mut rep);
     rep
 }
@@ -1405,7 +1652,8 @@ fn finish_c04(rep: &mut Report) {
     rep.rule = "cases = (target, hostile input): for random shapes and 29 concrete types (Vec<u8/u64/String/..>, String, Box<[u8]>, heapless, maps, Vec<()>, derived \
                 structs/enums) the valid encoding, strict prefixes, byte substitutions, bit flips, varint re-paddings, hostile length prefixes (2^k, 2^k+-1, \
                 usize::MAX, isize::MAX, remaining+-1), random bytes; each decoded twice, flush against a PROT_NONE page on either side, under catch_unwind with \
-                a thread-local counting allocator; plus unservable requests (any / identifier / ignored / untagged / internally tagged). Non-trivial = non-empty input."
+                a thread-local counting allocator; plus unservable requests (any / identifier / ignored / untagged / internally tagged); concrete types also through the CRC-8/32/82 checksum-verifying slice decoders; \
+                operation histories on one flavour object (IOReader over a guarded scratch buffer, Slice over a guarded input: pops and takes of fitting, too-large and address-wrapping sizes, model-checked slot positions, size_hint and finalize) and one Deserializer decoding several values after a refused one. Non-trivial = non-empty input."
         .into();
     rep.assumptions = vec![
         "allocation bound judged as: bytes requested during the call <= 16*(len(input)+1)*size_of(element)+256, for targets without maps and without zero-width-element sequences".into(),
